@@ -1133,6 +1133,7 @@ where
                 is_new = true;
             }
         };
+        anda_db_utils::verif_point!("btree.insert.posting_done");
 
         if is_new {
             // Add the field value to the B-tree for range queries.
@@ -1148,6 +1149,7 @@ where
                 btree.insert(field_value.clone());
             }
         }
+        anda_db_utils::verif_point!("btree.insert.btree_done");
 
         // If the index was modified, update bucket state
         let mut new_bucket = 0;
@@ -1221,6 +1223,7 @@ where
         }
 
         if new_bucket > 0 {
+            anda_db_utils::verif_point!("btree.insert.before_new_bucket");
             // Create a new bucket and migrate this data to it
             match self.buckets.entry(new_bucket) {
                 dashmap::Entry::Vacant(entry) => {
@@ -1290,6 +1293,7 @@ where
                 }
             }
         }
+        anda_db_utils::verif_point!("btree.remove.posting_done");
 
         if removed {
             let mut entry_removed = false;
@@ -1301,6 +1305,7 @@ where
                     .postings
                     .remove_if(&field_value, |_, posting| posting.2.is_empty())
                     .is_some();
+                anda_db_utils::verif_point!("btree.remove.before_btree_cleanup");
 
                 if entry_removed {
                     self.remove_btree_key_if_posting_absent(&field_value);
@@ -1312,6 +1317,7 @@ where
             } else {
                 doc_size_decrease
             };
+            anda_db_utils::verif_point!("btree.remove.before_bucket_update");
 
             // Update the bucket state
             if let Some(mut b) = self.buckets.get_mut(&bucket_id) {
@@ -1506,6 +1512,7 @@ where
         // Add all new values to the B-tree in a single operation.
         // Same phantom-key guard as in `insert`: skip keys whose posting was
         // concurrently removed between posting creation and this point.
+        anda_db_utils::verif_point!("btree.insert_array.postings_done");
         if !new_btree_values.is_empty() {
             let mut btree = self.btree.write();
             for field_value in new_btree_values {
@@ -1516,6 +1523,7 @@ where
         }
 
         // Phase 2: handle bucket overflow and updates
+        anda_db_utils::verif_point!("btree.insert_array.btree_done");
         // Process each field value individually to avoid migrating existing values unnecessarily.
         // field_values_to_migrate: (old_bucket_id, field_value, size)
         let mut field_values_to_migrate: Vec<(u32, FV, usize)> = Vec::new();
@@ -1566,6 +1574,7 @@ where
         }
 
         // Phase 3: Create new buckets if needed
+        anda_db_utils::verif_point!("btree.insert_array.before_migration");
         if !field_values_to_migrate.is_empty() {
             let mut next_bucket_id = self.max_bucket_id.fetch_add(1, Ordering::Relaxed) + 1;
 
